@@ -128,6 +128,13 @@ Theorem Blocks_total_needs_utf8 :
 Proof. vm_compute. reflexivity. Qed.
 Print Assumptions Blocks_total_needs_utf8.
 
+(* the level handle_atx_heading stores: the scanner accepted 1..6 hashes and the count loop counts exactly them *)
+Theorem Blocks_atx_level_1_6 : forall rest m p level,
+  Scan.scan_atx_heading_start rest = Some m -> position_hash rest = Some p ->
+  count_hashes (skipn p rest) = Ok level -> 1 <= level <= 6.
+Proof. exact atx_level_bounds. Qed.
+Print Assumptions Blocks_atx_level_1_6.
+
 (* ---- witnesses / non-vacuity *)
 (* finalize(List) runs before the still open reference-definition paragraph of its last item is removed:
    the list is loose although its only item ends up with a single paragraph *)
